@@ -186,7 +186,8 @@ class Ctx:
 
     def audit(self, import_module: str, theorems: List[str]) -> Dict[str, List[str]]:
         """`#print axioms` on every property theorem; returns theorem -> axioms."""
-        src = f"import {import_module}\n" + "".join(f"#print axioms {t}\n" for t in theorems)
+        mods = [import_module] if isinstance(import_module, str) else list(import_module)
+        src = "".join(f"import {m}\n" for m in mods) + "".join(f"#print axioms {t}\n" for t in theorems)
         rc, out, err = sh(["lake", "env", "lean", "--stdin"], cwd=LEAN, input=src, timeout=900)
         res: Dict[str, List[str]] = {}
         text = out + err
@@ -367,7 +368,7 @@ def run_check(prop, tier: str, seed: int, replay: Optional[str] = None) -> int:
         # 3 hygiene + audit
         ctx.hygiene(prop.LEAN_SOURCES)
         if built:
-            ctx.audit(prop.LEAN_MODULES[0], prop.THEOREMS)
+            ctx.audit(list(prop.LEAN_MODULES), prop.THEOREMS)
             if tier == "thorough" and not getattr(prop, "OWN_LEANCHECKER", False):
                 # the toolchain's independent re-checker replays the compiled declarations through the kernel
                 rc, out, err = sh(["lake", "env", "leanchecker"] + list(prop.LEAN_MODULES), cwd=LEAN, timeout=1800)
